@@ -553,6 +553,8 @@ func (w *c02World) lifecycle() {
 		}
 		prune := w.rng.Intn(4) == 0
 		fmt.Fprintf(&w.log, "FORCELEAVE(%s by %s prune=%v) ", m.name, r.name, prune)
+		// what the issuer had applied about the member when the operator asked
+		issuerBefore := w.info(r)[m.name]
 		done := make(chan error, 1)
 		go func() {
 			if prune {
@@ -569,6 +571,19 @@ func (w *c02World) lifecycle() {
 				i = 100
 			default:
 				time.Sleep(500 * time.Millisecond)
+			}
+		}
+		// the issuer had applied the member's latest join (it lists the member as failed with that
+		// status time) before the force-leave was issued, so the force-leave is newer than that join
+		// and the member is left at the issuer (gone with prune) as soon as the call has been processed
+		if issuerBefore.status == serf.StatusFailed {
+			w.stats["forceleaves_of_failed_member_checked_at_issuer"]++
+			after, listed := w.info(r)[m.name]
+			switch {
+			case prune && listed:
+				w.violate("force-leave-not-newer-than-applied-join", fmt.Sprintf("%s listed %s as failed with status time %d; after its own RemoveFailedNodePrune it still lists it as %v (status time %d)", r.name, m.name, issuerBefore.ltime, after.status, after.ltime))
+			case !prune && (!listed || after.status != serf.StatusLeft):
+				w.violate("force-leave-not-newer-than-applied-join", fmt.Sprintf("%s listed %s as failed with status time %d; after its own RemoveFailedNode it lists it as %v (status time %d, listed=%v) instead of left", r.name, m.name, issuerBefore.ltime, after.status, after.ltime, listed))
 			}
 		}
 		m.forceLeft = true
